@@ -5,14 +5,15 @@ import (
 	"context"
 	"errors"
 	"fmt"
+	"math"
 	"strings"
 	"sync"
 	"sync/atomic"
 	"testing"
 	"time"
 
-	"github.com/hprose/hprose-golang/v3/rpc/core"
 	_ "github.com/hprose/hprose-golang/v3/rpc"
+	"github.com/hprose/hprose-golang/v3/rpc/core"
 	"github.com/hprose/hprose-golang/v3/rpc/plugins/circuitbreaker"
 	"pgregory.net/rapid"
 	"verif/hp/ev"
@@ -47,10 +48,40 @@ func (d *downstream) handler(ctx context.Context, request []byte, next core.Next
 	case 'o':
 		return []byte(fmt.Sprintf("Ri%d;z", d.token)), nil
 	case 'e':
+		// every error is a failure, whatever kind it is: the kind rotates with the position in the sequence
+		switch d.token % 6 {
+		case 1:
+			return nil, context.Canceled
+		case 2:
+			return nil, fmt.Errorf("down-error-%d: %w", d.token, context.Canceled)
+		case 3:
+			return nil, context.DeadlineExceeded
+		case 4:
+			return nil, core.ErrTimeout
+		case 5:
+			cctx, cancel := context.WithCancel(ctx)
+			cancel()
+			return nil, cctx.Err()
+		}
 		return nil, fmt.Errorf("down-error-%d", d.token)
 	default:
 		panic(fmt.Sprintf("down-panic-%d", d.token))
 	}
+}
+
+// downError is the text of the error the downstream returns at position i.
+func downError(i int) string {
+	switch i % 6 {
+	case 1, 5:
+		return context.Canceled.Error()
+	case 2:
+		return fmt.Sprintf("down-error-%d: %v", i, context.Canceled)
+	case 3:
+		return context.DeadlineExceeded.Error()
+	case 4:
+		return core.ErrTimeout.Error()
+	}
+	return fmt.Sprintf("down-error-%d", i)
 }
 
 // run executes the case against the real plugin installed in a real client and
@@ -62,6 +93,10 @@ func run(c Case) (crossed bool, problem string) {
 		rec = 0
 	case "inf":
 		rec = 24 * time.Hour
+	case "inf-max":
+		rec = time.Duration(math.MaxInt64) // the largest "never recover" a caller can write
+	case "inf-290y":
+		rec = 290 * 365 * 24 * time.Hour
 	default:
 		rec = timedRecovery
 	}
@@ -107,7 +142,7 @@ func run(c Case) (crossed bool, problem string) {
 		switch c.Recovery {
 		case "zero":
 			mustForward = true
-		case "inf":
+		case "inf", "inf-max", "inf-290y":
 			mustReject, mustForward = open, !open
 		default: // timed
 			// the interval the breaker can have computed lies within [lo, hi]
@@ -165,7 +200,7 @@ func run(c Case) (crossed bool, problem string) {
 				return crossed, "forwarded success not returned: " + step
 			}
 		case 'e':
-			if err == nil || err.Error() != fmt.Sprintf("down-error-%d", i) {
+			if err == nil || err.Error() != downError(i) {
 				return crossed, "forwarded error not returned: " + step
 			}
 		case 'p':
@@ -223,7 +258,7 @@ func TestExhaustive(t *testing.T) {
 	gen("")
 	idx := 0
 	for _, thr := range thresholds {
-		for _, rec := range []string{"zero", "inf"} {
+		for _, rec := range []string{"zero", "inf", "inf-max", "inf-290y"} {
 			for _, mock := range []bool{false, true} {
 				for _, s := range seqs {
 					idx++
@@ -267,7 +302,7 @@ func TestLongRandom(t *testing.T) {
 	ev.Check(t, "long-random", ev.N(3000, 60000), func(rt *rapid.T) {
 		c := Case{
 			Threshold: rapid.Uint64Range(0, 12).Draw(rt, "threshold"),
-			Recovery:  rapid.SampledFrom([]string{"zero", "inf"}).Draw(rt, "recovery"),
+			Recovery:  rapid.SampledFrom([]string{"zero", "inf", "inf-max", "inf-290y"}).Draw(rt, "recovery"),
 			Mock:      rapid.Bool().Draw(rt, "mock"),
 			Seq:       rapid.StringOfN(rapid.SampledFrom([]rune("oeepp")), 1, 60, -1).Draw(rt, "seq"),
 		}
@@ -369,7 +404,6 @@ func TestConcurrent(t *testing.T) {
 		}
 	})
 }
-
 
 // ---------------------------------------------------------------- overlapping calls (harness-owned schedule)
 
